@@ -28,7 +28,7 @@ type c08Op struct {
 	Side  string `json:"side,omitempty"`
 	I     int    `json:"i,omitempty"`
 	Order string `json:"order,omitempty"` // reopen: "oldFirst" | "newFirst"
-	Point string `json:"point,omitempty"` // window: "unregister.window" | "sender.closed"
+	Point string `json:"point,omitempty"` // window: "unregister.window" | "sender.closed" | "activereceiver.window" | "log:<message>"
 	Act   string `json:"act,omitempty"`   // window: successor | announce | deliver | watermark | none
 	N     int    `json:"n,omitempty"`
 }
@@ -389,7 +389,7 @@ func c08Run(t *testing.T, c c08Case) (res c08Result) {
 			}
 			check()
 		}
-		for _, pnt := range append([]string{"unregister.window", "sender.closed"}, c08LogPoints...) {
+		for _, pnt := range append([]string{"unregister.window", "sender.closed", "activereceiver.window"}, c08LogPoints...) {
 			gates.release(pnt)
 		}
 		res.leftovers = w.endAll()
@@ -423,7 +423,7 @@ func c08Gen(t *rapid.T) c08Case {
 		case x < 30:
 			c.Ops = append(c.Ops, c08Op{K: "reopen", Side: side, I: idx, Order: rapid.SampledFrom([]string{"oldFirst", "newFirst", "newFirst", "openFails"}).Draw(t, "order")})
 		case x < 50:
-			pt := rapid.SampledFrom(append([]string{"unregister.window", "sender.closed", "unregister.window", "sender.closed"}, c08LogPoints...)).Draw(t, "point")
+			pt := rapid.SampledFrom(append([]string{"unregister.window", "sender.closed", "unregister.window", "sender.closed", "activereceiver.window", "activereceiver.window"}, c08LogPoints...)).Draw(t, "point")
 			acts := []string{"successor", "announce", "deliver", "watermark", "none"}
 			c.Ops = append(c.Ops, c08Op{K: "window", Side: side, I: idx, Point: pt, Act: rapid.SampledFrom(acts).Draw(t, "act")})
 		case x < 65:
